@@ -290,6 +290,11 @@ def jobs_c08(tier, known):
     return js
 
 
+C20_S1 = {"poly": [936, 1388, 884, 1872, 1652, 768, 504, 892, 1304, 1384, 10252, 8472, 504, 3872, 4092, 6012],
+          "tet": [1116, 1360, 860, 1512, 1652, 768, 504, 892, 1304, 1232, 10216, 8472, 504, 3872, 3740, 11308],
+          "hex": [764, 884, 980, 1956, 1608, 888, 544, 1028, 6760, 1272, 17868, 13376, 544, 4636, 4132, 6340]}
+
+
 def jobs_c20(tier, known):
     js = []
     NM = 16
@@ -304,10 +309,14 @@ def jobs_c20(tier, known):
         for a in range(NM):
             for b in range(NM):
                 js.append(sj(kernel, 2, 1, (a, b), dl))
-        # <= 2 preemptions: quick on the diagonal + neighbours, thorough on all pairs
+        # <= 2 preemptions: the number of schedules grows like S1(a)*S1(b)/2 (S1 = measured number of <=1-preemption schedules of the
+        # diagonal job), so the bound-2 jobs are the pairs below a size limit: ~150k schedules per job (quick), ~600k (thorough)
+        lim = 3.0e5 if tier == "quick" else 1.2e6
         for a in range(NM):
             for b in range(NM):
-                if tier == "thorough" or (b == a and kernel == "poly" and a % 2 == 0) or (b == a and kernel != "poly" and a in (5, 7)):
+                if tier == "quick" and a != b:
+                    continue
+                if C20_S1[kernel][a] * C20_S1[kernel][b] <= lim:
                     js.append(sj(kernel, 2, 2, (a, b), dl))
         # 3 threads, <= 1 preemption
         for a in range(NM):
